@@ -139,7 +139,8 @@ func asErr(v sval) bool {
 	}
 }
 
-var msgs = []string{"", "a", "b", "c", "d", "e", "f", "g", "x1", "y22", "boom", "io", "Z", "q r", "m-n", "%d", "\"q\""}
+var msgs = []string{"", "a", "b", "c", "d", "e", "f", "g", "x1", "y22", "boom", "io", "Z", "q r", "m-n", "%d", "\"q\"",
+	"line1\nline2", "\n", "- item", "%s %v %!d(", "100%", "\ttab", "caf\u00e9 \u2713", "Caused by: x", "Multiple (2) errors occurred:"}
 
 func hexMsg(r *hx.Rng) string { return hx.Hex([]byte(hx.Pick(r, msgs))) }
 
@@ -149,6 +150,7 @@ type gen struct {
 	emit  func(string)
 	nextV int
 	lines int
+	cap   int // bound on the length of every aggregate of the history
 }
 
 func (g *gen) out(k int, v sval, op string) {
@@ -244,11 +246,11 @@ func (g *gen) doAppend(k int, args []int) bool {
 	}
 	res := trial.append(vs[0], vs[1:])
 	// every variable may see a longer chain afterwards: bound them all
-	if trial.length(res) > 40 || len(trial.nodes) > 1500 {
+	if trial.length(res) > g.cap || len(trial.nodes) > 1500+8*g.cap {
 		return false
 	}
 	for _, v := range trial.vars {
-		if trial.length(v) > 40 {
+		if trial.length(v) > g.cap {
 			return false
 		}
 	}
@@ -273,7 +275,7 @@ func (g *gen) history(maxOps int) {
 	}
 	ops := r.Range(2, maxOps)
 	for i := 0; i < ops; i++ {
-		switch c := r.Intn(20); {
+		switch c := r.Intn(24); {
 		case c < 11: // append
 			a := acc
 			if r.Chance(1, 3) {
@@ -335,10 +337,12 @@ func (g *gen) history(maxOps int) {
 				res = *v.inner
 			}
 			g.out(g.fresh(), res, "unwrap "+vn(a))
-		case c < 19 && r.Bool():
+		case c < 20:
 			a := g.anyVar()
 			g.out(g.fresh(), g.val(a), "render "+vn(a))
-		case c < 19:
+		case c < 22:
+			g.elem(g.anyVar())
+		case c < 23:
 			a := g.anyVar()
 			v := g.val(a)
 			res := sval{kind: kNil}
@@ -363,13 +367,148 @@ func (g *gen) history(maxOps int) {
 	}
 }
 
+// elem takes one element of WrappedErrors() of variable a as a value of its own and (usually) appends to it: a detached
+// copy must behave like a fresh single error, and the aggregate it came from must not change.
+func (g *gen) elem(a int) {
+	v := g.val(a)
+	n := g.s.length(v)
+	i := g.r.Intn(n + 1)
+	if n > 0 && g.r.Chance(1, 2) {
+		i = hx.Pick(g.r, []int{0, 0, n - 1})
+	}
+	res := sval{kind: kNil}
+	if v.kind == kRef && i < n {
+		nd := g.s.nodes[g.s.chain(v.id)[i]]
+		nd.next = -1
+		res = sval{kind: kRef, id: g.s.push(nd)}
+	}
+	k := g.fresh()
+	g.out(k, res, "elem "+vn(a)+" "+strconv.Itoa(i))
+	if g.r.Chance(2, 3) {
+		args := []int{k}
+		for j, m := 0, g.r.Range(1, 3); j < m; j++ {
+			args = append(args, g.anyVar())
+		}
+		if !g.doAppend(k, args) {
+			g.doAppend(k, args[:1])
+		}
+	}
+}
+
+// lateRender renders the oldest values at the end of the history: the stack of an old error must still be its own
+// after many errors were created elsewhere.
+func (g *gen) lateRender() {
+	for i, n := 0, g.r.Range(1, 3); i < n && g.nextV > 0; i++ {
+		a := g.r.Intn(g.nextV)
+		if i == 0 || g.r.Bool() {
+			a = g.r.Intn(1 + g.nextV/3)
+		}
+		g.out(g.fresh(), g.val(a), "render "+vn(a))
+	}
+}
+
+// bigHistory grows one accumulator through the sizes where fixed buffers, growth policies and two/three/four digit
+// counts change (12, 16/17, 32/33, 64/65, 100, 128/129, 256/257, 1000+), with few variables so that the output stays small.
+func (g *gen) bigHistory(limit int) {
+	r := g.r
+	g.s = &sim{vars: map[int]sval{}}
+	g.nextV = 0
+	g.cap = limit
+	g.emit("reset")
+	g.lines++
+	acc, x, y := g.fresh(), g.fresh(), g.fresh()
+	g.out(acc, sval{kind: kRef, id: g.s.push(snode{next: -1})}, "new "+hexMsg(r))
+	g.out(x, sval{kind: kRef, id: g.s.push(snode{next: -1})}, "new 78")
+	g.out(y, sval{kind: kPlain}, "plain 79")
+	var targets []int
+	for _, t := range []int{12, 16, 17, 32, 33, 64, 65, 100, 128, 129, 256, 257, 1000, 1024} {
+		if t <= limit {
+			targets = append(targets, t)
+		}
+	}
+	goal := hx.Pick(r, targets)
+	var snaps []int // independent copies of earlier states of the accumulator, for growing in big steps
+	for step := 0; step < 90; step++ {
+		n := g.s.length(g.val(acc))
+		if n == goal {
+			switch r.Intn(4) {
+			case 0:
+				g.out(g.fresh(), g.val(acc), "render "+vn(acc))
+			case 1:
+				g.elem(acc)
+			case 2: // the big aggregate as a middle argument of a fresh accumulator
+				k := g.fresh()
+				g.out(k, sval{kind: kRef, id: g.s.push(snode{next: -1})}, "new 68")
+				g.doAppend(k, []int{k, acc, x})
+				g.out(k, sval{kind: kNil}, "nil") // drop it again: keeps the dump small
+			default:
+				g.out(g.fresh(), g.val(acc), "eon "+vn(acc))
+			}
+			// next goal: the neighbour, or a larger threshold
+			var larger []int
+			for _, t := range targets {
+				if t > n {
+					larger = append(larger, t)
+				}
+			}
+			if len(larger) == 0 {
+				break
+			}
+			goal = larger[0]
+			if r.Chance(1, 3) {
+				goal = hx.Pick(r, larger)
+			}
+			continue
+		}
+		best, bestLen := -1, 0
+		for _, sv := range snaps {
+			if l := g.s.length(g.val(sv)); n+l <= goal && l > bestLen {
+				best, bestLen = sv, l
+			}
+		}
+		switch {
+		case 2*n <= goal && bestLen <= n:
+			if r.Bool() {
+				g.doAppend(acc, []int{acc, acc}) // doubling through aliasing
+			} else { // an independent copy, appended; kept for later
+				c := g.fresh()
+				g.out(c, sval{kind: kTnil}, "tnil")
+				g.doAppend(c, []int{c, acc})
+				g.doAppend(acc, []int{acc, c})
+				if len(snaps) >= 3 {
+					g.out(snaps[0], sval{kind: kNil}, "nil")
+					snaps = snaps[1:]
+				}
+				snaps = append(snaps, c)
+			}
+		case bestLen >= 3:
+			if n+bestLen+1 <= goal && r.Bool() {
+				g.doAppend(acc, []int{acc, best, x}) // an aggregate in a non-last position
+			} else {
+				g.doAppend(acc, []int{acc, best})
+			}
+		case goal-n >= 3 && r.Bool():
+			g.doAppend(acc, []int{acc, x, y, x})
+		default:
+			g.doAppend(acc, []int{acc, hx.Pick(r, []int{x, y})})
+		}
+	}
+	g.lateRender()
+	g.cap = 40
+}
+
 func (a *errsArea) Gen(r *hx.Rng, n int, _ string, emit func(string)) {
-	g := &gen{r: r, emit: emit}
+	g := &gen{r: r, emit: emit, cap: 40}
 	for g.lines < n {
+		if r.Chance(1, 120) {
+			g.bigHistory(hx.Pick(r, []int{70, 140, 140, 300, 300, 1100}))
+			continue
+		}
 		maxOps := 12
 		if r.Chance(1, 6) {
 			maxOps = 30 // long chains on one accumulator
 		}
 		g.history(maxOps)
+		g.lateRender()
 	}
 }
